@@ -83,7 +83,8 @@ STATEMENTS (a block is translated together with "what follows it", so a variable
   x = d                         for a never-aliased local dict d of trees: x is a reference to d (ref_root d)
   x[k] = v                      for a reference x into d: re-binding of d to what ref_setitem x k v returns (TypeError on a plain
                                 value, UnmodelledEffect on a tensor); the references into d are stale afterwards and cannot be used
-  x.extend(l)                   re-binding of x to x ++ l (same condition on x as append)
+  x.extend(l), x += l           re-binding of x to x ++ l (same condition on x as append);  d.update(e) is d |= e
+  if [not] isinstance(x, dict)  for x of a type in DICT_UNIONS: a match on x (the statement form of the conditional expression above)
   continue                      inside a translated for loop: the rest of the body is skipped (the loop state as it is)
   x[i] = e, x.append(e)         re-binding of x to py_setitem x i e / x ++ [e]; only if x is a local initialised by a list
   x[i] += e, x[i] -= e          display, a list comprehension, list(..) or [..] * n that is never aliased (never bound to another
@@ -122,7 +123,10 @@ TARGET MODES  "function": a def (possibly a method, found by qualified name); it
           "decision": one `if` statement of a loop body (Target.stop_before), or a whole function body (stop_before = None), as the
           function (tags of the actions executed, in order; ends with `continue` / `return`?) of Target.atoms.  An action is an
           assignment / expression statement / return whose source text starts with a key of Target.actions (a statement with tensor
-          side effects: what it computes is not a value here; `return E` counts as the action `x = E`); `return x` of a name ends the function; an `if` whose branches only
+          side effects: what it computes is not a value here; `return E` counts as the action `x = E`; a key "re:<regex>" is matched
+          against the whole statement); `x = <reference>` (names / attributes / subscripts, no call) for a new local x makes x another
+          name of that object: later statements are read with x replaced by it; `x = <tensor expression>` is passed over only if its
+          text matches an entry of Target.opaque; a call of a module-level procedure that only logs is dropped; `return x` of a name ends the function; an `if` whose branches only
           log is dropped even if its test is not translatable; raise statements are `Raise E k` as usual;
           "alias": Class.method resolved through the single-inheritance chain of classes in the file: the translation of the
           defining class's method (an earlier target) gets the name Target.coq_name, `Ret tt` if no class of the chain defines it
@@ -190,6 +194,7 @@ class Target:
     state: list = field(default_factory=list)        # [(source text, name, type)]: lists owned by `self` that the function updates in place
     drop: list = field(default_factory=list)         # mode "prefix": source-text prefixes of statements left out of the slice (they may only
                                                      # write names that no kept statement reads; the result is "if the function completes")
+    opaque: list = field(default_factory=list)       # mode "decision": regexes of the assignments `x = <tensor expression>` that may be passed over
     actions: dict = field(default_factory=dict)      # mode "decision": source text of a statement with (tensor) side effects -> its tag (int)
     foreign: dict = field(default_factory=dict)      # source text of a foreign function -> (Gallina function, [argument types], result type,
                                                      # exception class or None): a parameter of the generated module, pure and total
@@ -961,11 +966,10 @@ class Fn:
             x = s.targets[0].id
             if is_reference(s.value):                      # x = state_lists[KEY]: x is another name of that object
                 return nxt({**env, "@subst": {**env.get("@subst", {}), x: s.value}})
-            try:
-                self.expr(s.value, env)
-            except Untranslatable:
-                # x = <tensor expression>: a new local that no test may use (it is not in the environment); statements that
-                # use it must be actions.  Allowed for names that are neither parameters nor part of an atom.
+            if any(re.fullmatch(pat, unp(s)) for pat in self.tgt.opaque):
+                # x = <tensor expression> whose text the target lists (Target.opaque): a new local that no test can use (it is not in
+                # the environment); the statements that use it must be actions.  Only for names that are neither parameters nor
+                # part of an atom.
                 return nxt({**env, "@subst": {k: v for k, v in env.get("@subst", {}).items() if k != x}})
         if tag is not None and isinstance(s, (ast.Assign, ast.Expr, ast.Return)):  # decision mode: a statement with (tensor) side effects
             code = f"let acts_ := (acts_ ++ [({tag})]) in\n"                       # is recorded by its tag; what it binds is not a value here
